@@ -60,7 +60,13 @@ func (c17) Gen(rng *sim.Rand, tier string) *Case {
 			if 2*i+e >= c17MaxEntries {
 				e = 0
 			}
-			switch rng.Pick(4, 4, 1, 1) {
+			pick := rng.Pick(4, 4, 1, 1)
+			if 2*i+e >= c17MaxEntries {
+				// no entry left for this task to own (an entry must never be handled by two
+				// tasks at once - that would be a misuse of the queue, not a test of it): it only notifies
+				pick = 1 + rng.Intn(2)
+			}
+			switch pick {
 			case 0:
 				if reg[e] {
 					s = append(s, Op{K: "unreg", A: 2*i + e})
